@@ -80,11 +80,13 @@ type c20Input struct {
 	TailBlocks int `json:"tail_blocks,omitempty"`
 	TailN      int `json:"tail_n,omitempty"`
 	// collector (stress of the contract-event collector): nodes × rounds CheckID calls over upkeeps × blocks, reads Data() calls
-	Nodes   int       `json:"nodes,omitempty"`
-	NUpkeep int       `json:"n_upkeep,omitempty"`
-	NBlock  int       `json:"n_block,omitempty"`
-	Reads   int       `json:"reads,omitempty"`
-	Plan2   *c20Canon `json:"plan2,omitempty"`
+	Nodes   int `json:"nodes,omitempty"`
+	NUpkeep int `json:"n_upkeep,omitempty"`
+	NBlock  int `json:"n_block,omitempty"`
+	Reads   int `json:"reads,omitempty"`
+	// db (stress of the simulated databases): part "ocr3" | "upkeep"; nodes goroutines x rounds calls
+	Part  string    `json:"part,omitempty"`
+	Plan2 *c20Canon `json:"plan2,omitempty"`
 	// transmit (concurrent stress of the transmit loader)
 	Rounds    int `json:"rounds,omitempty"`
 	K         int `json:"k,omitempty"`
@@ -920,6 +922,8 @@ func c20Run(t *testing.T, in c20Input, simExe string) any {
 		return c20RunResave(in)
 	case "collector":
 		return c20RunCollector(in, simExe, in.Race)
+	case "db":
+		return c20RunDB(in, simExe, in.Race)
 	case "transmit":
 		return c20RunTransmit(in, simExe, in.Race)
 	case "sim":
@@ -1143,6 +1147,15 @@ func TestC20(t *testing.T) {
 		if raceExe != "" {
 			col.Race, col.Rounds, col.Reads = true, 3000, 300
 			sims = append(sims, simCase{col, raceExe})
+		}
+	}
+	for _, part := range []string{"ocr3", "upkeep"} {
+		// a node's simulated databases under the concurrent callers they have in a run
+		db := c20Input{Kind: "db", Part: part, Nodes: 8, Rounds: tierN(20000, 100000)}
+		sims = append(sims, simCase{db, self})
+		if raceExe != "" {
+			db.Race, db.Rounds = true, 2000
+			sims = append(sims, simCase{db, raceExe})
 		}
 	}
 	if raceExe != "" {
